@@ -50,6 +50,7 @@ GoodForm(name, form) ==
     [] name \in {"map", "and_then"} -> form \in {"str", "path"}
     [] name = "flatten" -> form = "word"
     [] name = "rename_all" -> form = "rule"
+    [] name = "bound" -> form = "preds"                  \* a string holding where-predicates
     [] name = "attributes" -> form \in {"words", "empty"}
     [] name = "forward_attrs" -> form \in {"word", "words", "empty"}
     [] name = "from_ident" -> TRUE                       \* only the name is looked at (outer_from.rs:63)
@@ -140,6 +141,7 @@ ContainerItem(derive, s, it, pos) ==
   ELSE IF ~Knows(derive, n) THEN R(s, one("unknown"))
   ELSE CASE n = "default" -> IF s.default THEN R(s, one("dup")) ELSE IF bad THEN R(s, one("form")) ELSE R([s EXCEPT !.default = TRUE], <<>>)
          [] n = "rename_all" -> IF bad THEN R(s, one("form")) ELSE R(s, <<>>)                       \* may be given again: overwritten
+         [] n = "bound" -> IF bad THEN R(s, one("form")) ELSE R(s, <<>>)                            \* likewise
          [] n \in {"map", "and_then"} ->
               IF s.xform = n THEN R(s, one("dup")) ELSE IF s.xform # "" THEN R(s, one("map+and_then"))
               ELSE IF bad THEN R(s, one("form")) ELSE R([s EXCEPT !.xform = n], <<>>)
